@@ -9,6 +9,7 @@ class KGTimerHandler:
         self.name = name
         self.interval = interval
         self.delegate = None
+        self.tick = 1  # index of the interval boundary the pending callback serves
 
     def cancel(self):
         if self.delegate is None:
@@ -30,7 +31,10 @@ def _call_periodic(loop: asyncio.BaseEventLoop, name, interval, callback):
             if interval == 0:
                 handle.delegate = loop.call_soon(run, handle)
             else:
-                handle.delegate = loop.call_later(interval - ((loop.time() - start) % interval), run, handle)
+                # next boundary strictly after now, never one that was already served (the float
+                # modulo could land a hair before the boundary just served and fire it again)
+                handle.tick = max(handle.tick, int((loop.time() - start) // interval)) + 1
+                handle.delegate = loop.call_at(start + handle.tick * interval, run, handle)
         else:
             handle.cancel()
 
